@@ -466,7 +466,7 @@ class ParserFunctions:
         if not name or not self.wikidb:
             return args.get(args[2], "")
 
-        nsnum, _, _ = self.wikidb.nshandler.splitname(name)
+        nsnum, _, _ = self.nshandler.splitname(name)
         if nsnum == -2:
             exists = bool(self.wikidb.normalize_and_get_image_path(name.split(":")[1]))
         else:
